@@ -50,7 +50,6 @@ pub trait EscapeBuilder {
             .replace('\0', "\\0")
             .replace('\x08', "\\b")
             .replace('\x09', "\\t")
-            .replace('\x1a', "\\z")
             .replace('\n', "\\n")
             .replace('\r', "\\r")
     }
